@@ -515,8 +515,10 @@ def parseLeader(raw, eols=(CRLF, LF), kind="leader header line", headers=None):
         del raw[:index] # remove used bytes
         if line:
             line = line.decode('iso-8859-1')  # convert to unicode string
-            key, value = line.split(': ', 1)
-            headers[key] = value
+            key, sep, value = line.partition(':')  # optional whitespace after colon
+            if not sep or not key:
+                raise HTTPException("Invalid header line '{0}'".format(line[:64]))
+            headers[key] = value.strip()
 
         if len(headers) > MAX_HEADERS:
             raise HTTPException("Too many headers, more than {0}".format(MAX_HEADERS))
